@@ -68,7 +68,7 @@ def nonce(ctr):
 
 
 class CoapH(explore.Harness):
-    ALPH = ["req", "deliver", "deliver-newest", "replay-first", "replay-last", "future", "corrupt", "cancel", "timer", "ev", "ev-odd", "ev-replay", "ev-replay-last", "ev-corrupt"]
+    ALPH = ["req", "deliver", "deliver-newest", "replay-first", "replay-last", "future", "corrupt", "err-reply", "cancel", "timer", "ev", "ev-odd", "ev-replay", "ev-replay-last", "ev-corrupt"]
 
     def __init__(self, p):
         from aiohomekit.controller.coap.connection import EncryptionContext, EventResource
@@ -146,7 +146,7 @@ class CoapH(explore.Harness):
             if a == "req":
                 if len([t for t in self.tasks if not t.done()]) < 2:
                     m.append(a)
-            elif a in ("deliver", "future", "corrupt"):
+            elif a in ("deliver", "future", "corrupt", "err-reply"):
                 if old:
                     m.append(a)
             elif a == "deliver-newest":
@@ -202,6 +202,15 @@ class CoapH(explore.Harness):
                 r.response.set_exception(asyncio.TimeoutError())
             else:
                 r.response.set_result(_Resp(ct))
+        elif label == "err-reply":
+            # the request is answered with a CoAP error code and a plain diagnostic payload (5.03 from a busy stack or a border router on the
+            # way - or from anybody: the code of a reply is not authenticated).  The accessory may well have received and counted the request
+            from aiocoap.numbers.codes import Code
+
+            r, msg = self._oldest()
+            if self.p.get("err_reply_after_receipt", True):
+                self._open_request(msg)
+            r.response.set_result(_Resp(b"busy", Code.SERVICE_UNAVAILABLE))
         elif label in ("deliver", "future", "corrupt", "replay-first", "replay-last"):
             r, msg = self._oldest()
             # an honest accessory only answers what it could decrypt; an attacker needs nothing
